@@ -466,4 +466,16 @@ def rule_D7(tree: Tree) -> RuleResult:
         r.ob(ok, Finding("D7", key, f"{qn}: a key-log entry must be added to the connection's secrets only under "
                                     f"`entry.client_random == <this connection's client random>` compared on normalised case "
                                     f"(found: {detail or 'no such dominating test'})", f.module.line(f.node)))
+    # the secret a TLS <= 1.2 key schedule starts from is chosen by its label, not by its position among the connection's lines (another label with the same client
+    # random — e.g. CLIENT_EARLY_TRAFFIC_SECRET of a 0-RTT attempt that fell back to TLS 1.2 — may be listed first)
+    r.instances += 1
+    gk = tree.func("session", "Session.generate_keys")
+    sel = [n for n in body_walk(gk.node) if isinstance(n, ast.Assign) and dotted(n.targets[0]) == "secret"]
+    by_pos = [src(n.value, 60) for n in sel if isinstance(n.value, ast.Subscript) and not isinstance(n.value.slice, ast.Slice)]
+    by_label = [n for n in sel if any(isinstance(x, ast.Attribute) and x.attr == "label" for x in ast.walk(n.value))
+                and {try_fold(c) for c in ast.walk(n.value) if isinstance(c, ast.Constant) and isinstance(c.value, str)} >= {"CLIENT_RANDOM", "RSA"}]
+    r.ob(len(sel) >= 1 and not by_pos and len(by_label) == len(sel),
+         Finding("D7", "session:Session.generate_keys:secret-by-label",
+                 f"generate_keys takes `{by_pos[0] if by_pos else (src(sel[0].value, 60) if sel else None)}` as the connection's secret: the CLIENT_RANDOM / RSA line must be selected by its label — "
+                 f"with another line of the same client random listed first no decryptor is installed (the export then depends on the line order of the key log)", gk.module.line(gk.node)))
     return r
